@@ -215,7 +215,10 @@ func (cc *clientConn) RoundTrip(req *http.Request) (_ *http.Response, err error)
 			extractTrailerFromHeader(h, trailer)
 			delete(h, "Trailer")
 
-			if (contentLength != 0 && req.Method != http.MethodHead) || len(trailer) > 0 {
+			// A response with Content-Length: 0 can still end in a HEADERS frame with
+			// trailers the server did not announce (net/http.TrailerPrefix), so only a
+			// response to HEAD gets away without a body reader.
+			if req.Method != http.MethodHead || len(trailer) > 0 {
 				rt.respBody = &bodyReader{
 					st:      st,
 					remain:  contentLength,
